@@ -77,6 +77,17 @@ fn gen_c08(seed: u64, k: usize) -> (String, &'static str) {
     let mut rng = Rng(seed ^ (k as u64) ^ 0xC08);
     let nl = if knobs.crlf { "\r\n" } else { "\n" };
     let mut out = String::new();
+    // one program in two starts with require groups and an ignore region laid over them in various ways (the fourth run sorts
+    // requires): the region opens in front of an ordinary statement or of a require, and closes likewise
+    if rng.chance(1, 2) {
+        let open_on_req = rng.chance(1, 2);
+        let close_on_req = rng.chance(1, 2);
+        if !open_on_req { out.push_str(&format!("-- stylua: ignore start{}local zz   =   1{}", nl, nl)); }
+        else { out.push_str(&format!("local zz   =   1{}-- stylua: ignore start{}", nl, nl)); }
+        out.push_str(&format!("local rb   =   require(\"b\"){}local ra   =   require(\"a\"){}", nl, nl));
+        if close_on_req { out.push_str(&format!("-- stylua: ignore end{}local rd   =   require(\"d\"){}local rc   =   require(\"c\"){}local yy   =   2{}", nl, nl, nl, nl)); }
+        else { out.push_str(&format!("-- stylua: ignore end{}local yy   =   2{}local rd   =   require(\"d\"){}local rc   =   require(\"c\"){}", nl, nl, nl, nl)); }
+    }
     let mut region = false;
     for line in src.split_inclusive('\n') {
         let t = line.trim_start();
@@ -128,8 +139,9 @@ pub fn main(args: &[String]) {
         let mut rng = Rng(seed ^ (k as u64).wrapping_mul(0x2545F4914F6CDD1D) ^ 0x89);
         // C08 has a third run per program: the default configuration with a range drawn anywhere (mid-token, inside an ignored
         // node): whatever the range, an ignored node comes out as written
-        for c in 0..(if which == "c08" { 3 } else { 2 }) {
-            let words = if c != 1 { vec![format!("syntax={}", syn)] } else { crate::run::random_config(&mut rng, syn, false) };
+        for c in 0..(if which == "c08" { 4 } else { 2 }) {
+            // C08's fourth run: the default configuration with sort_requires (the sorter keeps its own record of the ignore regions)
+            let words = if c == 3 { vec![format!("syntax={}", syn), "sort_requires=true".to_string()] } else if c != 1 { vec![format!("syntax={}", syn)] } else { crate::run::random_config(&mut rng, syn, false) };
             let wrefs: Vec<&str> = words.iter().map(|s| s.as_str()).collect();
             let cfg = config(&wrefs);
             let id = format!("g{}.{}", k, c);
